@@ -83,6 +83,12 @@ func Errors() Profile {
 		Maps: true, PrimPayloads: true, Errors: true, CustomErrors: true, ParamHeavy: true}
 }
 
+// Security is the C06 profile.
+func Security() Profile {
+	return Profile{Name: "security", MaxServices: 2, MaxMethods: 3, MaxFields: 3, Runtime: true,
+		Validations: true, Defaults: true, UserTypes: true, MultiRoute: true, BasePaths: true, Security: true, Errors: true, NoBodyVerbs: true}
+}
+
 // Response is the C03 profile.
 func Response() Profile {
 	return Profile{Name: "response", MaxServices: 2, MaxMethods: 3, MaxFields: 6, Runtime: true,
@@ -734,4 +740,105 @@ func tameRecursion(a *m.Attr, self string) {
 	}
 }
 
-func (g *G) schemes() {}
+// schemes declares 1-4 security schemes and, sometimes, API-level requirements.
+func (g *G) schemes() {
+	t := g.t
+	kinds := []string{"basic", "apikey", "jwt", "oauth2"}
+	n := rapid.IntRange(1, 4).Draw(t, "nschemes")
+	used := map[string]int{}
+	for i := 0; i < n; i++ {
+		k := rapid.SampledFrom(kinds).Draw(t, "schemekind")
+		if k == "basic" && used["basic"] > 0 {
+			k = "apikey" // one Basic scheme: there is one Authorization header
+		}
+		if used[k] > 0 && g.avoid("C01-two-schemes-same-type") {
+			continue
+		}
+		used[k]++
+		name := k
+		if used[k] > 1 {
+			name = fmt.Sprintf("%s%d", k, used[k])
+		}
+		sc := &m.Scheme{Kind: k, Name: name, Var: g.newVar()}
+		if k == "jwt" || k == "oauth2" {
+			ns := rapid.IntRange(0, 3).Draw(t, "nscopes")
+			for j := 0; j < ns; j++ {
+				sc.Scopes = append(sc.Scopes, []string{"api:read", "api:write", "admin"}[j])
+			}
+		}
+		g.d.Schemes = append(g.d.Schemes, sc)
+	}
+	g.feat("security-schemes")
+	if rapid.IntRange(0, 2).Draw(t, "apisec") == 0 {
+		g.d.API.Security = g.requirements()
+		g.feat("api-level-security")
+	}
+}
+
+// requirements draws 1-3 alternative requirements of 1-2 schemes each.
+func (g *G) requirements() []m.Requirement {
+	t := g.t
+	var out []m.Requirement
+	n := rapid.IntRange(1, 3).Draw(t, "nreqs")
+	for i := 0; i < n; i++ {
+		var r m.Requirement
+		k := rapid.IntRange(1, 2).Draw(t, "nreqschemes")
+		seen := map[string]bool{}
+		for j := 0; j < k; j++ {
+			sc := g.d.Schemes[rapid.IntRange(0, len(g.d.Schemes)-1).Draw(t, "reqscheme")]
+			if seen[sc.Name] {
+				continue
+			}
+			seen[sc.Name] = true
+			r.Schemes = append(r.Schemes, sc.Name)
+			// required scopes: a subset of the scopes the schemes declare
+			for _, s := range sc.Scopes {
+				if rapid.Bool().Draw(t, "reqscope") {
+					dup := false
+					for _, x := range r.Scopes {
+						if x == s {
+							dup = true
+						}
+					}
+					if !dup {
+						r.Scopes = append(r.Scopes, s)
+					}
+				}
+			}
+		}
+		out = append(out, r)
+	}
+	if len(out) > 1 {
+		g.feat("alternative-requirements")
+	}
+	for _, r := range out {
+		if len(r.Schemes) > 1 {
+			g.feat("multi-scheme-requirement")
+		}
+	}
+	return out
+}
+
+// SchemeByName returns the named scheme.
+func SchemeByName(d *m.Design, name string) *m.Scheme {
+	for _, s := range d.Schemes {
+		if s.Name == name {
+			return s
+		}
+	}
+	return nil
+}
+
+// EffectiveSecurity returns the requirements that apply to a method: its own,
+// else the service's, else the API's; none when the method says NoSecurity.
+func EffectiveSecurity(d *m.Design, s *m.Service, meth *m.Method) []m.Requirement {
+	switch {
+	case meth.NoSecurity:
+		return nil
+	case len(meth.Security) > 0:
+		return meth.Security
+	case len(s.Security) > 0:
+		return s.Security
+	}
+	return d.API.Security
+}
